@@ -12,7 +12,7 @@ import (
 func init() {
 	register(&core.Rule{ID: "C10.9", Prop: "C10", MinSites: 5,
 		Desc: "accepted means stored: elastic.Buffer.Write hands its payload (or both halves p[:k], p[k:] of one split) to the ring/list before every return; in Writev every iteration of a loop over the segments stores its segment on every path, and a segment split as b[:k] is completed by b[k:] with the same k",
-		Run: runC10_9})
+		Run:  runC10_9})
 }
 
 // storeArg: call is a method call on mb.ringBuffer / mb.listBuffer; returns its payload-like arguments.
